@@ -72,5 +72,16 @@ theorem claim_pays_exactly_what_was_calculated (del : Acct) (hu : IsUser del) (v
     (w w' : World) (r : Coins × AVal) (h : claimDelegationRewards del val dn w = (.ok r, w')) :
     bankBalance w' del d = bankBalance w del d + Coins.sumOf r.1 d := claimDelegationRewards_pays del hu val dn d w w' r h
 
+
+/-- what one index move promises: with m = Mul(c, nw) the asset's part of a reward of c base units and bump = Quo(m, tt) the
+    index move for token value tt on the validator, bump·tt is m to within (H+1)·tt/10³⁶ and m is c·nw to within ½·10⁻¹⁸ — the
+    promise exceeds the part by at most half a unit of the 18th digit per token staked (the resolution limit behind the
+    known finding `pool_short_large_stake`) -/
+theorem index_move_promises_the_part (c : Int) (nw tt : Dec) (hc : 0 ≤ c) (hnw : 0 ≤ nw) (htt : 0 < tt) :
+    let m := mul (ofInt c) nw
+    let bump := quo m tt
+    bump * P * tt ≤ m * P2 + H * tt ∧ m * P2 ≤ bump * P * tt + (H + 1) * tt ∧
+    ofInt c * nw - H ≤ m * P ∧ m * P ≤ ofInt c * nw + H := bump_promise_bound c nw tt hc hnw htt
+
 end C12
 end Alliance
